@@ -785,8 +785,7 @@ def gen_file(rng, n_schemas=None, size=3):
 def mf_undef_schema(f, rng):
     # only in a schema nobody imports from: importing from a schema that failed pass 1 is a different story (and crashes
     # when the failed clause was a whole-schema USE: SCOPEfind_for_rename does not skip the NULL entry)
-    imported = {i.schema for s in f.schemas for i in s.ifaces}
-    c = [(s, i) for s in f.schemas if s.name not in imported for i in s.ifaces]
+    c = [(s, i) for s in f.schemas for i in s.ifaces]
     if not c:
         return None
     s, i = rng.choice(c)
@@ -861,6 +860,15 @@ def m_entity_as_type(s, rng):
     return Fault("entity-as-type", s, [("TYPE_IS_ENTITY", [e.name])])
 
 
+def m_type_self_cycle(s, rng):
+    """TYPE t = t;  /  TYPE t = LIST OF t;"""
+    nm = f"tcyc_{rng.randint(0, 99)}"
+    ref = ("N", nm) if rng.random() < 0.5 else ("A", rng.choice(["LIST [0:?] OF", "SET [1:?] OF", "BAG OF"]), ("N", nm))
+    s.decls.insert(rng.randint(0, len(s.decls)), TypeDecl(nm, "ref", ref))
+    return Fault("circular-type", s, [("CIRCULAR_REFERENCE", [nm])])
+
+
+MUTATORS["type_self_cycle"] = m_type_self_cycle
 MUTATORS["dup_redecl_attr"] = m_dup_redecl_attr
 MUTATORS["entity_as_type"] = m_entity_as_type
 FILE_MUTATORS = {"undef_schema": mf_undef_schema, "undef_item": mf_undef_item, "dup_alias": mf_dup_alias}
